@@ -1043,6 +1043,7 @@ func newStructConverter(typ reflect.Type) (*StructConverter, error) {
 // PointerConverter converts between *T and the Risor equivalent of T.
 type PointerConverter struct {
 	valueConverter TypeConverter
+	valueType      reflect.Type
 }
 
 func (c *PointerConverter) To(obj Object) (interface{}, error) {
@@ -1053,8 +1054,12 @@ func (c *PointerConverter) To(obj Object) (interface{}, error) {
 	if err != nil {
 		return nil, err
 	}
-	vp := reflect.New(reflect.TypeOf(v))
-	vp.Elem().Set(reflect.ValueOf(v))
+	// Allocate the declared pointee type, not the dynamic type of v: they
+	// differ for *interface{} and for pointers to named slices and maps.
+	vp := reflect.New(c.valueType)
+	if v != nil {
+		vp.Elem().Set(reflect.ValueOf(v))
+	}
 	return vp.Interface(), nil
 }
 
@@ -1073,7 +1078,7 @@ func newPointerConverter(indirectType reflect.Type) (*PointerConverter, error) {
 	if err != nil {
 		return nil, err
 	}
-	return &PointerConverter{valueConverter: indirectConv}, nil
+	return &PointerConverter{valueConverter: indirectConv, valueType: indirectType}, nil
 }
 
 // SliceConverter converts between []T and the Risor equivalent of []T.
